@@ -485,7 +485,7 @@ func domUnchangedIn(r *engine.Run, rule, name string) int {
 			at := ev.At
 			engine.Instrs(f, func(i2 ssa.Instruction) {
 				c, ok := i2.(*ssa.Call)
-				if !ok || !extCalleeIs(c, "bytes", "", "Equal") || ev.Val == nil {
+				if !ok || !isBytesEq(c) || ev.Val == nil {
 					return
 				}
 				a, b := stripCT(c.Call.Args[0]), stripCT(c.Call.Args[1])
@@ -695,7 +695,7 @@ func chanEvents(f *ssa.Function, ch ssa.Value) []chanEvent {
 					// guard inside the helper
 					engine.Instrs(g, func(i3 ssa.Instruction) {
 						eq, ok := i3.(*ssa.Call)
-						if !ok || !extCalleeIs(eq, "bytes", "", "Equal") {
+						if !ok || !isBytesEq(eq) {
 							return
 						}
 						if truthAt(g, sd.Block(), eq, false) {
